@@ -13,6 +13,8 @@ RULE = ("per parser: valid exchanges from independent python encoders (RTP/RTCP/
         "interleaved/WebSocket/PS/...), each truncated at every offset, every length/count field set to 0,1,max-1,max, "
         "random bytes; a case is non-trivial when its (op, outcome class, input shape) triple is new")
 ASSUMPTIONS = ["nazalog.Assert has the default behaviour (log only)",
+               "bufio.Reader.ReadLine joined over isPrefix pieces is modelled as an ideal line reader (split at \\n, one \\r before it dropped); "
+               "the message-reader ops run on a fake conn that delivers the whole stream and then io.EOF",
                "rtsp.BaseInSessionTimestampFilterFlag=false in the in-session op (AvPacketQueue belongs to C07)",
                "ops named c13x.* drive library surfaces that are not modelled (nazahttp, net/http, encoding/json): "
                "the model side is the constant 'alive'; they are covered by mutation testing only",
@@ -22,8 +24,8 @@ ASSUMPTIONS = ["nazalog.Assert has the default behaviour (log only)",
 FULL_OUTPUT = True
 TIMEOUT = 1500
 
-# known findings: panic sites whose repair is not in lal's tree
-KNOWN_SITES = {"nazahttp.ReadHttpMessage:makeslice": "C13-KF-01", "nazahttp.ReadHttpMessage:oom": "C13-KF-01"}
+# known findings: panic sites whose repair is not in lal's tree (none left: C13-KF-01 is repaired inside lal)
+KNOWN_SITES = {}
 
 
 # ---------------------------------------------------------------- independent encoders (RFC 3550, 3640, 6184, 7798, 2326, 6455)
@@ -927,6 +929,130 @@ def gen_rtmpc(tier, rng):
         yield Case("c13x.flvpull " + hex_tok(mutate(rng, resp)), cls="x-flvpull")
 
 
+# ---------------------------------------------------------------- the RTSP message reader (rtsp/read_message.go)
+CL_VALUES = [b"0", b"1", b"5", b"-1", b"-0", b"+0", b"+5", b"-5", b"0x10", b"1e3", b"1_0", b"05", b"0000000000000000000000005", b"99999999999", b"2147483647", b"2147483648",
+             b"4294967296", b"9223372036854775807", b"9223372036854775808", b"-9223372036854775808", b"-9223372036854775809", b"18446744073709551615", b"99999999999999999999",
+             b"5 ", b" 5", b"  5  ", b"\t5", b"5\t", b"5 5", b"", b" ", b"abc", b"5a", b"-", b"+", b"5.0", b"\xef\xbc\x95"]
+CL_NAMES = [b"Content-Length", b"content-length", b"CONTENT-LENGTH", b"Content-length", b"cONTENT-lENGTH", b"Content-Length ", b" Content-Length", b"  content-length  ", b"Content-Length\t",
+            b"Content_Length", b"Content Length", b"Content-Lengt", b"Content-Length2", b"X-Content-Length", b"Content\xe2\x84\xaaLength", b""]
+
+
+def http_msg(first, headers, body=b"", eol=b"\r\n"):
+    out = first + eol
+    for k, v in headers:
+        out += k + b": " + v + eol
+    return out + eol + body
+
+
+def gen_msg(tier, rng):
+    quick = tier == "quick"
+    req1 = b"ANNOUNCE rtsp://127.0.0.1:5544/live/x RTSP/1.0"
+    resp1 = b"RTSP/1.0 200 OK"
+    body = b"v=0\r\no=- 0 0 IN IP4 127.0.0.1\r\nm=video 0 RTP/AVP 96\r\n"
+    kinds = ("raw", "req", "resp")
+
+    def one(kind, b, cls):
+        return Case("c13.rtspmsg %s %s" % (kind, hex_tok(b)), cls=cls)
+    # --- Content-Length: absent / 0 / exact / short body / long body, every value form, every spelling of the name
+    for kind, first in (("raw", resp1), ("req", req1), ("resp", resp1)):
+        yield one(kind, http_msg(first, [(b"CSeq", b"2")], body), "msg-cl-absent")
+        yield one(kind, http_msg(first, [(b"CSeq", b"2"), (b"Content-Length", b"%d" % len(body))], body), "msg-cl-exact")
+        for d in (-1, 1, len(body), 4096, 100000):
+            yield one(kind, http_msg(first, [(b"Content-Length", b"%d" % (len(body) + d))], body), "msg-cl-short-body")
+        yield one(kind, http_msg(first, [(b"Content-Length", b"%d" % len(body))], body + b"OPTIONS * RTSP/1.0\r\n\r\n"), "msg-cl-long-body")
+        for v in CL_VALUES:
+            for bd in (b"", b"hello", body):
+                yield one(kind, http_msg(first, [(b"CSeq", b"1"), (b"Content-Length", v)], bd), "msg-cl-value")
+        for nm in CL_NAMES:
+            yield one(kind, http_msg(first, [(nm, b"5"), (b"Content-Type", b"application/sdp")], b"hello world"), "msg-cl-name")
+            yield one(kind, first + b"\r\n" + nm + b":5\r\n\r\nhello world", "msg-cl-name")
+        # duplicated header (the first one counts), a value glued from a line without colon, an empty first value
+        for v1, v2 in ((b"5", b"3"), (b"3", b"5"), (b"-1", b"5"), (b"5", b"-1"), (b"", b"5"), (b"5", b""), (b"abc", b"5"), (b"99999999999", b"0")):
+            yield one(kind, http_msg(first, [(b"Content-Length", v1), (b"content-length", v2)], b"hello world"), "msg-cl-dup")
+            yield one(kind, http_msg(first, [(b"content-LENGTH", v1), (b"X", b"y"), (b"Content-Length", v2)], b"hello world"), "msg-cl-dup")
+        for glue in (b"0", b"1", b"-1", b" 1", b"x", b"99999999999"):
+            yield one(kind, first + b"\r\nContent-Length: 1\r\n" + glue + b"\r\n\r\nhello world!", "msg-cl-glue")
+            yield one(kind, first + b"\r\nContent-Length: 1\r\nContent-Length: 2\r\n" + glue + b"\r\n\r\nhello world!", "msg-cl-glue")
+            yield one(kind, first + b"\r\n" + glue + b"\r\nContent-Length: 1\r\n\r\nhello world!", "msg-cl-glue")
+            yield one(kind, first + b"\r\n:v\r\n" + glue + b"\r\nContent Length: 1\r\n" + glue + b"\r\n\r\nhello", "msg-cl-glue")
+    # --- body sizes around the read step and the doubling points, declared = exact / one more / double / huge
+    for n in (0, 1, 255, 256, 257, 4095, 4096, 4097, 8191, 8192, 8193, 12288, 16384, 16385, 20000, 40000):
+        for decl in (n, n + 1, 2 * n + 1, n + 4096, n + 4097, 99999999999, 9223372036854775807):
+            hdr = http_msg(resp1, [(b"Content-Length", b"%d" % decl)])
+            tok = hex_tok(hdr) + ("+r%d.%d" % (n, n & 0xff) if n else "")
+            yield Case("c13.rtspmsg raw %s" % tok, cls="msg-body-size")
+            if decl in (n, n + 1, 99999999999):
+                yield Case("c13.rtspmsg req %s" % tok, cls="msg-body-size")
+    # --- first line and line structure
+    firsts = [b"", b" ", b"A", b"A B", b"A B C", b"A B C D", b"A  B", b" A B", b"A B ", b"A B C ", b"  ", b"A\tB", b"\r", b":", b"A:B C", b"OPTIONS * RTSP/1.0"]
+    for f in firsts:
+        for eol in (b"\r\n", b"\n"):
+            yield one("req", http_msg(f, [(b"CSeq", b"1")], eol=eol), "msg-first-line")
+            yield one("raw", http_msg(f, [(b"Content-Length", b"2")], b"ab", eol=eol), "msg-first-line")
+    odd = [b"\r\n", b"\n", b"\r", b"\r\r\n", b"A B\r\r\n\r\n", b"A B\n\r\n", b"A B\r\nK: v\r\r\n\r\n", b"A B\r\nK: v\n\n", b"A B\r\nK: v", b"A B\r\nK: v\r\n", b"A B\r\nK: v\r", b"A B", b"A B\r",
+           b"A B\r\n\r\n", b"A B\r\n\rK: v\r\n\r\n", b"A B\r\nK:: v:w\r\n\r\n", b"A B\r\n: v\r\nx\r\n\r\n", b"A B\r\nK:\r\nK: \r\nK:   a  \r\n\r\n", b"A B\r\nK: a\r\nk: b\r\nK-k: c\r\nk-K: d\r\n\r\n",
+           b"A B\r\nK k: a\r\nK k: b\r\ncont\r\n\r\n", b"A B\r\nk\x00: a\r\nK\x00: b\r\n\r\n", b"A B\r\na-b-c: 1\r\nA-B-C: 2\r\n-a: 3\r\n-: 4\r\n--a: 5\r\n\r\n", b"A B\r\n1a-2b: x\r\nwww-authenticate: y\r\n\r\n",
+           b"A B\r\nContent-Length: 3\r\n\r\nab\r\n", b"A B\r\n\x80\xff: \xff\r\n\xfe\r\n\r\n", b"A B\r\nK: v\x00w\r\n\r\n"]
+    for o in odd:
+        for kind in kinds:
+            yield one(kind, o, "msg-lines")
+    # long lines: the 256-byte buffer of the client connection and the 4096-byte bufio default, '\r' at the buffer edge
+    for n in (253, 254, 255, 256, 257, 258, 511, 512, 513, 4093, 4094, 4095, 4096, 4097, 8192, 8193):
+        for tail in (b"", b"\r"):
+            fl = b"A " + b"u" * (n - 2 - len(tail)) + tail
+            yield one("raw", fl + b"\r\nContent-Length: 1\r\n\r\nx", "msg-long-line")
+            yield one("raw", fl + b"\nContent-Length: 1\n\nx", "msg-long-line")
+            yield one("req", b"A B\r\nK: " + b"v" * (n - 3 - len(tail)) + tail + b"\r\nContent-Length: 1\r\n\r\nx", "msg-long-line")
+            yield one("raw", b"A B\r\nK: " + b"v" * (n - 3 - len(tail)) + tail + b"\r\n" + b"c" * (n - len(tail)) + tail + b"\r\n\r\n", "msg-long-line")
+            yield one("raw", b"A B\r\n" + b"k" * (n - 1) + b":" + tail, "msg-long-line")
+    # --- truncation at every offset, mutations
+    whole = http_msg(req1, [(b"CSeq", b"2"), (b"Content-Type", b"application/sdp"), (b"Content-Length", b"%d" % len(body))], body)
+    for cut in range(len(whole) + 1):
+        yield one("raw", whole[:cut], "msg-trunc")
+        if cut % 3 == 0:
+            yield one("req", whole[:cut], "msg-trunc")
+    seps = [b"\r\n", b"\n", b"\r", b":", b" ", b"-", b"+", b"Content-Length: ", b"content-length:", b"0", b"9"]
+    for _ in range(600 if quick else 60000):
+        yield one(rng.choice(kinds), text_mutate(rng, whole, seps), "msg-mutation")
+    for _ in range(150 if quick else 20000):
+        hs = []
+        for _ in range(rng.randrange(0, 5)):
+            if rng.random() < 0.5:
+                hs.append((rng.choice(CL_NAMES), rng.choice(CL_VALUES)))
+            else:
+                hs.append((bytes(rng.choice(b"aA-k: \t") for _ in range(rng.randrange(0, 6))), bytes(rng.choice(b"v 1-\t:") for _ in range(rng.randrange(0, 5)))))
+        yield one(rng.choice(kinds), http_msg(rng.choice(firsts + [req1, resp1]), hs, rb(rng, rng.choice([0, 1, 5, 6, 30])), eol=rng.choice([b"\r\n", b"\r\n", b"\n"])), "msg-random")
+    # --- the framing loops of the sessions: messages with and without body, interleaved packets in between
+    m1 = http_msg(b"OPTIONS rtsp://h/x RTSP/1.0", [(b"CSeq", b"1")])
+    m2 = http_msg(req1, [(b"CSeq", b"2"), (b"Content-Length", b"%d" % len(body))], body)
+    m3 = http_msg(b"SETUP rtsp://h/x/streamid=0 RTSP/1.0", [(b"CSeq", b"3"), (b"Transport", b"RTP/AVP/TCP;unicast;interleaved=0-1")])
+    r2 = http_msg(resp1, [(b"CSeq", b"2"), (b"content-length", b"%d" % len(body))], body)
+    r3 = http_msg(b"RTSP/1.0 401 Unauthorized", [(b"CSeq", b"3"), (b"WWW-Authenticate", b'Digest realm="r", nonce="n"')])
+    p1, p2 = interleaved(0, rtp(96, 1, 0, 7, b"\x65\x01")), interleaved(1, rtcp_sr(7, 1, 2, 3, 4, 5))
+    big = http_msg(resp1, [(b"Content-Length", b"10000")], bytes(i & 0xff for i in range(10000)))
+    bads = [http_msg(req1, [(b"Content-Length", v)], b"hello") for v in (b"-1", b"99999999999", b"+5", b"0x10", b"6", b"4", b"abc", b"9223372036854775807")]
+    seqs = [[m1, m2, m3], [m1, p1, m2, p2, p1, m3], [p1, p2], [m2, m2, m2], [r2, r3, p1, r2], [big, m1, big], [m1, b"\r\n", m3], [m1, b"$"], [m1, b"$\x00\x00"], [m2[:-1], m1],
+            [m2 + b"$", m1], [m2 + b"\r\n", m1]] + [[m1, b_, m3] for b_ in bads] + [[b_] for b_ in bads]
+    for sq in seqs:
+        stream = b"".join(sq)
+        yield Case("c13.rtspsrv " + hex_tok(stream), cls="msg-loop-srv")
+        yield Case("c13.rtspcli " + hex_tok(stream), cls="msg-loop-cli")
+        yield Case("c13.rtspws " + hex_tok(b"".join(ws_frame(x, mask=rb(rng, 4)) for x in sq)), cls="msg-loop-ws")
+        yield Case("c13.rtspws " + hex_tok(ws_frame(stream)), cls="msg-loop-ws")
+    for cut in range(0, len(b"".join(seqs[1])) + 1, 1 if not quick else 3):
+        yield Case("c13.rtspsrv " + hex_tok(b"".join(seqs[1])[:cut]), cls="msg-loop-trunc")
+        yield Case("c13.rtspcli " + hex_tok(b"".join(seqs[4])[:cut]), cls="msg-loop-trunc")
+    for _ in range(200 if quick else 30000):
+        sq = [rng.choice([m1, m2, m3, r2, r3, p1, p2] + bads[:2]) for _ in range(rng.randrange(1, 6))]
+        k = rng.randrange(len(sq))
+        sq[k] = text_mutate(rng, sq[k], seps + [b"$"])
+        op = rng.choice(["c13.rtspsrv", "c13.rtspcli", "c13.rtspws"])
+        if op == "c13.rtspws":
+            yield Case("c13.rtspws " + hex_tok(b"".join(ws_frame(x, mask=rb(rng, 4) if rng.random() < 0.7 else None) for x in sq)), cls="msg-loop-mutation")
+        else:
+            yield Case("%s %s" % (op, hex_tok(b"".join(sq))), cls="msg-loop-mutation")
+
+
 def text_mutate(rng, b, seps):
     b = bytearray(b)
     k = rng.randrange(6)
@@ -1075,7 +1201,9 @@ def ws_wrap(parts, rng):
 
 
 HOSTILE_HEADERS = [("CSeq", ""), ("CSeq", "-1"), ("CSeq", "99999999999999999999"), ("Content-Length", "-1"), ("Content-Length", "0"), ("Content-Length", "5"),
-                   ("Content-Length", "99999999999"), ("Content-Length", "abc"), ("Transport", ""), ("Transport", "interleaved="), ("Transport", "RTP/AVP/TCP;interleaved=a-b"),
+                   ("Content-Length", "99999999999"), ("Content-Length", "abc"), ("Content-Length", "+5"), ("Content-Length", "0x10"), ("Content-Length", "1e3"),
+                   ("Content-Length", "2147483648"), ("Content-Length", "9223372036854775807"), ("Content-Length", "9223372036854775808"), ("Content-Length", "-9223372036854775808"),
+                   ("Content-Length", " 7 "), ("content-length", "-1"), ("CONTENT-LENGTH", "-5"), ("Content-Length", "5\r\nContent-Length: -1"), ("Content-Length", "\r\nContent-Length: -1"), ("Transport", ""), ("Transport", "interleaved="), ("Transport", "RTP/AVP/TCP;interleaved=a-b"),
                    ("Transport", "RTP/AVP/TCP;interleaved=256-70000"), ("Transport", "RTP/AVP/TCP;interleaved=1"), ("Transport", "RTP/AVP/TCP;interleaved=-"),
                    ("Transport", "RTP/AVP;client_port="), ("Transport", "RTP/AVP;client_port=-"), ("Transport", "RTP/AVP;client_port=99999-1"), ("Transport", "RTP/AVP;client_port=1"),
                    ("Transport", "client_port=a-b"), ("Authorization", ""), ("Authorization", "Basic"), ("Authorization", "Basic !!!"), ("Authorization", "Basic dTpw"),
@@ -1201,7 +1329,7 @@ def gen_sessions(tier, rng):
 
 
 def gen_cases(tier, rng):
-    for g in (gen_rtp, gen_rtcp, gen_insess, gen_udpsess, gen_ilv, gen_ws, gen_ps, gen_rtmpc, gen_text, gen_sessions):
+    for g in (gen_rtp, gen_rtcp, gen_insess, gen_udpsess, gen_msg, gen_ilv, gen_ws, gen_ps, gen_rtmpc, gen_text, gen_sessions):
         for c in g(tier, rng):
             yield c
 
@@ -1325,9 +1453,3 @@ def neighbors(c, rng):
             yield " ".join(f[:-1] + [hex_tok(b[:t])])
         for _ in range(100):
             yield " ".join(f[:-1] + [hex_tok(mutate(rng, b))])
-
-
-def known_needs_model(c):
-    """c13x.* ops drive surfaces that are not modelled (the model side is the constant
-    `alive`), so a listed finding there is matched by its panic site alone"""
-    return not c.line.startswith("c13x.")
